@@ -274,7 +274,72 @@ def families(tier):
     return fams
 
 
+# ---------------------------------------------------------------- hidden recursion, with cuts
+
+def hidden_graphs(tier):
+    """Grammars outside the detection clause (a nullable *rule* sits in front of the recursive call, so the analysis
+    cannot see the cycle) but inside the run-time clause: no grammar and input recurse without bound.  The run-time
+    guard for such rules lives in the memo table, which cuts prune: alternatives with cuts come first."""
+    items = ('a', 'n', 't', 'x', '~', 'G')
+    seq1 = [[i] for i in items]
+    seq2 = [[i, j] for i in items for j in items]
+    seq3 = [[i, j, k] for i in items for j in items for k in items]
+    alt1 = [s for s in seq1 + seq2 if 'G' in s or '~' in s]
+    alt2 = [s for s in seq1 + seq2 + (seq3 if tier != 'quick' else [s for s in seq3 if s[2] == 't'])
+            if s[0] in ('n', 'a') and 'a' in s]
+    alt3 = [None, ['t'], ['x']]
+    for a1 in alt1:
+        for a2 in alt2:
+            for a3 in alt3:
+                yield [a1, a2] + ([a3] if a3 else [])
+
+
+def hidden_text(alts):
+    def item(it):
+        return {'t': "'t'", 'x': "'x'", 'G': "('x' ~ 't' | 't')"}.get(it, it)
+    body = ' | '.join(' '.join(item(i) for i in alt) for alt in alts)
+    return f"a: {body} ;\n\nn: ['t'] ;\n"
+
+
+def shard_hidden(m, items):
+    from tatsu.exceptions import ParseException
+    from .. import impl
+    signal.signal(signal.SIGALRM, _alarm)
+    for alts in items:
+        text = hidden_text(alts)
+        try:
+            model = impl.compile_text(text)
+        except ParseException:
+            m.add('hidden_rejected_at_compile')
+            continue
+        except Exception as e:  # noqa
+            m.violation(f'hidden/compile-crash/{type(e).__name__}', grammar=text, error=str(e)[:200])
+            continue
+        m.add('states')
+        m.add('hidden_graphs')
+        for t in BATTERY + ['x t', 'x x', 't x t']:
+            m.add('evaluations')
+            m.add('transitions')
+            signal.setitimer(signal.ITIMER_REAL, 5.0)
+            try:
+                model.parse(t, start='a')
+                m.add('nontrivial')
+            except ParseException:
+                pass
+            except RecursionError:
+                m.violation('hidden/unbounded-recursion', grammar=text, input=t)
+            except Watchdog:
+                m.violation('hidden/hang', grammar=text, input=t)
+            except Exception as e:  # noqa
+                m.violation(f'hidden/foreign-exception/{type(e).__name__}', grammar=text, input=t, error=str(e)[:200])
+            finally:
+                signal.setitimer(signal.ITIMER_REAL, 0)
+
+
 def run(rc):
+    hid = list(hidden_graphs(rc.tier))
+    rc.pmap(shard_hidden, hid)
+    rc.coverage['hidden_recursion_graphs'] = len(hid)
     fams = families(rc.tier)
     total = 0
     for name, graphs in fams:
@@ -289,7 +354,8 @@ def run(rc):
     rc.rule = ('every rule graph of the listed families (bodies = sequences of 1-2 (3) items over {rule calls, t, [t], {t}, [call]} with optional `| t` '
                'base; family 4 adds &t, !x, (), &call, !call, (call), {call}, {call}+, n:call), restricted as the property says to graphs with no call to a nullable rule in a left prefix; per graph: GrammarError under '
                '@@left_recursion::False iff the independent analysis finds a left cycle; non-cyclic rules memoized and not lrec; every rule as start x '
-               f'{len(BATTERY)} inputs without RecursionError/hang; non-trivial = graph with a left cycle')
+               f'{len(BATTERY)} inputs without RecursionError/hang; plus {len(hid)} one-rule grammars whose recursion hides behind a nullable rule call and whose earlier '
+               'alternatives contain cuts (run-time clause only: no RecursionError/hang); non-trivial = graph with a left cycle')
     rc.coverage.update({
         'states': c.get('states', 0), 'transitions': c.get('transitions', 0),
         'traces_validated_against_impl': c.get('states', 0),
